@@ -30,7 +30,27 @@ ASSUME = [
 ]
 
 
+def gen_tenths_case(rng):
+    """exponents k/10 (their float sums are not the floats of their sums) with p = 1: the multipliers' exponents are sums of rows"""
+    n = 1
+    def rows(m):
+        out, seen = [], set()
+        while len(out) < m:
+            r = (F(rng.randint(-9, 9), 10),)
+            if r not in seen:
+                seen.add(r)
+                out.append(list(r))
+        return out
+    fr_ = rows(3)
+    f = rm.sig_leaf(fr_, [F(rng.choice([1, 2, 3])) for _ in fr_])
+    gr = [[F(0)]] + rows(2)
+    g = rm.sig_leaf(gr, [F(rng.randint(3, 6))] + [F(-rng.randint(1, 2)) for _ in gr[1:]])
+    return {'f': f, 'gts': [g], 'eqs': [], 'p': 1, 'q': 1, 'ell': 0, 'slacks': rng.random() < 0.5, 'infer': False}
+
+
 def gen_case(rng):
+    if rng.random() < 0.2:
+        return gen_tenths_case(rng)
     n = rng.randint(1, 2)
     f = rm.gen_sig(rng, n=n, m=rng.randint(2, 4))
     gts, eqs = [], []
@@ -50,11 +70,16 @@ def gen_case(rng):
             'slacks': rng.random() < 0.5, 'infer': rng.random() < 0.4}
 
 
+def r7(x):
+    """a float exponent as the exact rational on the 10^-7 grid it stands for"""
+    return F(round(F(float(x)) * 10 ** 7), 10 ** 7)
+
+
 def sig_key(g):
     """canonical key of a numeric Signomial: sorted (row, coeff) pairs, zeros dropped"""
     d = {}
     for r, c in zip(np.asarray(g.alpha, dtype=float).tolist(), np.asarray(g.c, dtype=float).tolist()):
-        k = tuple(F(x) for x in r)
+        k = tuple(r7(x) for x in r)
         d[k] = d.get(k, F(0)) + F(c)
     return tuple(sorted((k, v) for k, v in d.items() if v != 0))
 
@@ -93,14 +118,14 @@ def identity_oracle(case, rng, f, L, ineq, eq, gamma):
     for (s, g) in list(ineq) + list(eq):
         vals = [F(rng.randint(-2, 3), 2) for _ in range(s.m)]
         s.c.value = np.array([float(v) for v in vals])
-        sd = {tuple(F(x) for x in r): v for r, v in zip(np.asarray(s.alpha, dtype=float).tolist(), vals)}
+        sd = {tuple(r7(x) for x in r): v for r, v in zip(np.asarray(s.alpha, dtype=float).tolist(), vals)}
         prod = st.ref_mul(sd, dict(sig_key(g)))
         addto(ref, prod, F(-1))
     ref = {k: v for k, v in ref.items() if v != 0}
     cval = L.c.value if isinstance(L.c, Expression) else np.asarray(L.c, dtype=float)
     got = {}
     for r, v in zip(np.asarray(L.alpha, dtype=float).tolist(), np.asarray(cval, dtype=float).tolist()):
-        k = tuple(F(x) for x in r)
+        k = tuple(r7(x) for x in r)
         got[k] = got.get(k, F(0)) + F(v)
     got = {k: v for k, v in got.items() if v != 0}
     if got != ref:
@@ -175,8 +200,8 @@ def run(ctx):
         f, gts, eqs, L, ineq, eq, gamma = real
         from sageopt.coniclifts.base import Expression
         cells = [rm.lin_cell(se, id2k) for se in (L.c.flat if isinstance(L.c, Expression) else L.c)]
-        alpha, (cells,) = rm.sort_rows(st.mat_json(L.alpha), cells)
-        io = {'alpha': alpha, 'c': cells, 'alpha_hat': sorted(st.mat_json(ineq[0][0].alpha)) if ineq else None}
+        alpha, (cells,) = rm.sort_rows(rm.mat_json7(L.alpha), cells)
+        io = {'alpha': alpha, 'c': cells, 'alpha_hat': sorted(rm.mat_json7(ineq[0][0].alpha)) if ineq else None}
         malpha, (mc,) = rm.sort_rows(mo['alpha'], mo['c'])
         m = {'alpha': malpha, 'c': mc, 'alpha_hat': sorted(mo['alpha_hat']) if ineq else None}
         if common.canon_json(io) != common.canon_json(m):
